@@ -30,6 +30,7 @@ def declare(rep):
     rep.rule("C15.remove-index-sorted", "indices collected by the threads of a parallel loop are sorted before remove_index compacts the shared list (thread-completion order must not matter)", floor=1)
     rep.rule("C15.static-local", "no function executed inside a parallel region (region body and callee closure) declares a mutable function-local static: such an object is one buffer shared by all threads", floor=8)
     rep.rule("C15.thread-id-dispatch", "no work inside a parallel region is assigned to a thread by comparing omp_get_thread_num() with a constant other than 0 (without a num_threads clause): with fewer threads in the team that work is silently not done, so the result depends on the thread count", floor=8)
+    rep.rule("C15.work-shared", "every statement of a parallel region is divided among the threads: the region is `parallel for` / `parallel sections`, or each statement of a bare `parallel` block lies in a for / sections / single / master / critical construct - otherwise every thread executes it and the result depends on the number of threads", floor=8)
     rep.rule("C15.atomic-accumulator", "each component update of vec3::translate is an OpenMP atomic update in the program as built", floor=6)
 
 
@@ -141,6 +142,24 @@ def _run(rep, prog, tier, only_units):
                               "inside the %s region at %s the statement guarded by '%s' runs only on the thread whose number is %s: when the team has %s thread(s) or fewer (nb_threads = %s, a single-core machine, nested parallelism) nobody executes it - e.g. one of the two output files is never written - and the outcome depends on the number of threads" % (reg["kind"], prog.loc(fn, node), short(cnode, 60), kk, kk, kk))
             if not tid:
                 rep.ok("C15.thread-id-dispatch", prog, fn, node, "%s region: no statement is reserved for a thread number other than 0" % reg["kind"])
+            # (1d) the work of a region is divided among the threads: a statement of a bare `omp parallel` block that is not inside
+            # a work-sharing construct is executed by every thread of the team
+            if isinstance(node, dict) and "omp" in node:
+                words = set(node["omp"].split())
+                redundant = []
+                if "parallel" in words and not ({"for", "sections", "single", "master", "masked", "loop"} & words):
+                    b_ = node.get("body") or {}
+                    for st_ in (b_.get("c", []) if b_.get("k") == "CompoundStmt" else [b_]):
+                        if not isinstance(st_, dict) or st_.get("k") in ("DeclStmt", "NullStmt"):
+                            continue
+                        if "omp" in st_ and ({"for", "sections", "single", "master", "masked", "critical", "barrier", "loop"} & set(st_["omp"].split())):
+                            continue
+                        redundant.append(st_)
+                if redundant:
+                    rep.violation("C15.work-shared", prog, fn, redundant[0], "statement of a parallel block executed by every thread",
+                                  "the '#pragma omp %s' block at %s has no work-sharing construct around the statement at line %s (%s): every thread of the team executes it in full, so with N threads its effects (forces accumulated, objects inserted, files written) are applied N times - the result is correct with one thread only" % (node["omp"], prog.loc(fn, node), redundant[0].get("l"), short(redundant[0], 60)))
+                else:
+                    rep.ok("C15.work-shared", prog, fn, node, "omp %s: the statements of the region are divided among the threads by a work-sharing construct" % node["omp"])
             # (4) shared mutation
             recs = RA.analyse(fn, reg)
             rfn = reg.get("fn", fn)
